@@ -382,6 +382,8 @@ def run_cfg(prop, tier, seed):
 C20_UNITS_QUICK = ['C12', 'C13', 'C10', 'C19', 'C09']
 C20_UNITS_THOROUGH = ['C12', 'C13', 'C10', 'C19', 'C09', 'C04', 'C08', 'C01', 'C02', 'C16']
 SAN_FLAGS = ['-O1', '-g', '-fsanitize=address,undefined,float-cast-overflow', '-fno-sanitize-recover=all']
+C20_HARNESS_FLAGS = ['-std=c++17', '-O1', '-g', '-ffp-contract=off', '-w', '-fsanitize=address,undefined,float-cast-overflow',
+                     '-fno-sanitize-recover=all', '-fno-sanitize=shift-base']
 
 
 def run_ub(prop, tier, seed):
@@ -430,8 +432,44 @@ def run_ub(prop, tier, seed):
                                            replay='unit binary of %s built with %s: %s' % (uf, ' '.join(SAN_FLAGS), ' '.join(mode))))
                 elif len(samples) < 5 and p.stdout:
                     samples.append((uf + ' ' + mode[0] + ': ' + p.stdout.split('\n')[0])[:200])
+    # (c) in-domain replay of the integer / bit-field / packing / rounding functions (diff/C20.cpp)
+    from checklib import sha_files, glm_tree_hash
+    hsrc = os.path.join(VERIF, 'diff', 'C20.cpp')
+    hkey = sha_files([hsrc], glm_tree_hash() + ' '.join(C20_HARNESS_FLAGS))[:16]
+    hbin = os.path.join(CACHE, 'C20_harness_%s.bin' % hkey)
+    h_groups, h_evals, known_lines = {}, 0, []
+    if not os.path.exists(hbin):
+        rc_h, out_h = sh(['g++'] + C20_HARNESS_FLAGS + ['-I' + REPO, '-o', hbin + '.tmp', hsrc], timeout=1800)
+        if rc_h == 0: os.replace(hbin + '.tmp', hbin)
+        else: unexplained.append('sanitizer build of diff/C20.cpp failed: %s' % out_h[-400:])
+    if os.path.exists(hbin):
+        henv = dict(os.environ, ASAN_OPTIONS='detect_leaks=0:abort_on_error=1', UBSAN_OPTIONS='abort_on_error=1')
+        hcount = 40000 if tier == 'thorough' else 2500
+        glist = [l.split('\t')[0] for l in subprocess.run([hbin, 'groups'], stdout=subprocess.PIPE, text=True).stdout.split('\n') if l.strip()]
+        def run_group(g):
+            return g, subprocess.run([hbin, 'run', str(seed), str(hcount), g], stdout=subprocess.PIPE, stderr=subprocess.PIPE, text=True, env=henv, timeout=3000)
+        from concurrent.futures import ThreadPoolExecutor
+        with ThreadPoolExecutor(8) as ex:
+            for g, p in ex.map(run_group, glist):
+                m = re.search(r'GROUP %s evaluations=(\d+)' % g, p.stdout)
+                if p.returncode == 0 and m:
+                    h_groups[g] = int(m.group(1)); h_evals += int(m.group(1))
+                else:
+                    echo = [l for l in p.stderr.split('\n') if l.startswith('ECHO')]
+                    msg = [l for l in p.stderr.split('\n') if 'runtime error' in l or 'ERROR: AddressSanitizer' in l or 'Assertion' in l]
+                    violations.append(dict(property=prop, kind='sanitizer-abort-in-domain', unit='harness:' + g, component=0, group=g,
+                                           call=(echo[-1][5:] if echo else None), report=msg[:3],
+                                           replay='g++ %s -I%s diff/C20.cpp -o C20.bin && UBSAN_OPTIONS=abort_on_error=1 ./C20.bin run %d %d %s' % (' '.join(C20_HARNESS_FLAGS), REPO, seed, hcount, g)))
+        # recorded in-domain classes: still failing -> KNOWN-FINDING line; no longer failing -> nothing to report
+        for k in known:
+            if 'known_class' not in k: continue
+            p = subprocess.run([hbin, 'known', str(k['known_class'])], stdout=subprocess.PIPE, stderr=subprocess.PIPE, text=True, env=henv, timeout=600)
+            if p.returncode != 0 and 'runtime error' in p.stderr:
+                known_lines.append('KNOWN-FINDING: property=%s %s' % (prop, k['what']))
+    evals += h_evals
     for v in violations[:5]:
         lines.append('VIOLATION property=%s replay=%s' % (prop, write_replay(prop, v)))
+    for l in known_lines: print(l)
     if unexplained and not violations:
         lines.append('VIOLATION property=%s replay=%s no-failing-input-found' % (prop, write_replay(prop, dict(property=prop, kind='guard-theorem-or-build-broken', items=unexplained[:20]))))
     nviol = len(lines)
@@ -442,6 +480,9 @@ def run_ub(prop, tier, seed):
                     rule='sanitizer replay: every (unit, input tuple) of the correspondence streams and numeric explorations of the listed unit files, evaluated by the real glm '
                          'in binaries built with -fsanitize=address,undefined,float-cast-overflow -fno-sanitize-recover=all (float-divide-by-zero stays off: IEEE division by zero is defined); '
                          'integer units restricted to small values (no signed overflow by construction of the domain); counted: evaluations performed without abort',
+                    harness_groups=h_groups,
+                    harness_rule='diff/C20.cpp: every function group is called on seeded inputs drawn from the documented domain stated per group (`C20.bin groups`), '
+                                 'in a build with non-recovering ASan+UBSan+float-cast-overflow (shift-base excluded: the property lists shift counts); an abort names the call',
                     unit_files=unit_files, samples=samples or ['none'], exhaustive=False)
     write_evidence(prop, tier, seed, coverage, ['memory-safety and aliasing UB have no counterpart in a functional Lean model: covered by the sanitizer replay only; '
                    'independence from the optimisation level is explored by C15 (thorough)'], time.time() - t0, nviol)
